@@ -1,4 +1,5 @@
 import LitexModel.Cdc.AsyncFifo
+import LitexModel.Cdc.BusSync
 import LitexModel.DriverLib
 /-
   Numeric port encoding of the clock-domain-crossing models for the line protocol.
@@ -18,6 +19,52 @@ def numAFifo (k : Nat) (buffered : Bool) : NumMachine (AFState Nat) where
       let i : AFIn Nat := { tw := n2b tw, tr := n2b tr, mw := mw, mr := mr, valid := n2b v, tok := d, ready := n2b r }
       some (afStep k buffered 0 s i,
             [b2n (writable k s), b2n (srcValid buffered s), srcTok buffered 0 s])
+    | _ => none
+  key s := toString (repr s)
+
+
+/-- Several independent asynchronous FIFOs side by side (`AXILiteClockDomainCrossing`: five channels);
+    inputs and outputs are the concatenation of the per-FIFO lists. -/
+def numAFifoMulti (cfg : List (Nat × Bool)) : NumMachine (List (AFState Nat)) where
+  init := cfg.map fun c => afInit c.1 0
+  step ss ins :=
+    let rec go : List (Nat × Bool) → List (AFState Nat) → List Nat → Option (List (AFState Nat) × List Nat)
+      | [], [], [] => some ([], [])
+      | c :: cs, s :: ss, tw :: tr :: mw :: mr :: v :: d :: r :: rest =>
+        match (numAFifo c.1 c.2).step s [tw, tr, mw, mr, v, d, r], go cs ss rest with
+        | some (s', o), some (ss', os) => some (s' :: ss', o ++ os)
+        | _, _ => none
+      | _, _, _ => none
+    go cfg ss ins
+  key s := toString (repr s)
+
+/-- bussync: inputs [ti, to, mPing, mPong, mBuf, i], outputs [o]. -/
+def numBusSync (w t : Nat) : NumMachine BSState where
+  init := bsInit t
+  step s ins :=
+    match ins with
+    | [ti, to, mp, mq, mb, i] =>
+      let x : BSIn := { ti := n2b ti, to := n2b to, mPing := n2b mp, mPong := n2b mq, mBuf := mb, i := i }
+      some (bsStep w t s x, [s.o])
+    | _ => none
+  key s := toString (repr s)
+
+/-- bussync1 (width 1): inputs [to, i], outputs [o]. -/
+def numBusSync1 : NumMachine BS1State where
+  init := { r1 := false, r2 := false }
+  step s ins :=
+    match ins with
+    | [to, i] => some (bs1Step s (n2b to) (n2b i), [b2n s.r2])
+    | _ => none
+  key s := toString (repr s)
+
+/-- pulsesync: inputs [ti, to, m, i], outputs [o]. -/
+def numPulseSync : NumMachine PSState where
+  init := psInit
+  step s ins :=
+    match ins with
+    | [ti, to, m, i] =>
+      some (psStep s { ti := n2b ti, to := n2b to, m := n2b m, i := n2b i }, [b2n (psOut s)])
     | _ => none
   key s := toString (repr s)
 
